@@ -6,13 +6,12 @@
 EXTENDS Cli, FiniteSets
 CONSTANT MaxLen
 Vals == {[num |-> "3", den |-> "1", decimal |-> "3"], [num |-> "1", den |-> "1", decimal |-> "1"], [num |-> "7", den |-> "2", decimal |-> "3.5"]}
-Units == {[has_numerator |-> FALSE, unit_plural |-> "", unit_singular |-> ""],
-          [has_numerator |-> TRUE, unit_plural |-> "m", unit_singular |-> "m"],
-          [has_numerator |-> FALSE, unit_plural |-> "/s", unit_singular |-> "/s"],
-          [has_numerator |-> TRUE, unit_plural |-> "decades", unit_singular |-> "decade"]}
-Results == {[k |-> "val", msg |-> "", num |-> v.num, den |-> v.den, decimal |-> v.decimal, has_numerator |-> u.has_numerator,
-             unit_plural |-> u.unit_plural, unit_singular |-> u.unit_singular] : v \in Vals, u \in Units}
-           \cup {[k |-> "err", msg |-> "divide by zero", num |-> "", den |-> "", decimal |-> "", has_numerator |-> FALSE, unit_plural |-> "", unit_singular |-> ""]}
+McNames == [k \in UKeys |-> IF k = "DECADE" THEN [sg |-> "decade", pl |-> "decades"] ELSE IF k = "Meter" THEN [sg |-> "m", pl |-> "m"]
+                                 ELSE IF k = "Second" THEN [sg |-> "s", pl |-> "s"] ELSE [sg |-> "?", pl |-> "?s"]]
+McSyms == [dot |-> "*", sup |-> <<"^0", "^1", "^2", "^3", "^4", "^5", "^6", "^7", "^8", "^9">>, micro |-> "u"]
+Units == {<<>>, <<<<"Meter", 1, 0>>>>, <<<<"Second", -1, 0>>>>, <<<<"DECADE", 1, 0>>>>, <<<<"Meter", 12, 3>>, <<"DECADE", -1, 0>>>>}
+Results == {[k |-> "val", msg |-> "", num |-> v.num, den |-> v.den, decimal |-> v.decimal, u |-> u] : v \in Vals, u \in Units}
+           \cup {[k |-> "err", msg |-> "divide by zero", num |-> "", den |-> "", decimal |-> "", u |-> <<>>]}
 RECURSIVE PrintOut(_, _, _)
 PrintOut(results, j, exact) == IF j > Len(results) THEN <<>>
                             ELSE (IF results[j].k = "val" THEN <<Line(results[j], exact)>> ELSE <<"error: " \o results[j].msg, "  | source", "">>)
@@ -24,8 +23,23 @@ Accepts == Matches(PrintOut(rs, 1, exact), rs, <<>>, exact) = ""
 \* corruptions
 DropLast(ls) == SubSeq(ls, 1, Len(ls) - 1)
 RejectsDropped == (rs # <<>> /\ rs[Len(rs)].k = "val") => Matches(DropLast(PrintOut(rs, 1, exact)), rs, <<>>, exact) # ""
-RejectsAlwaysBlank == (\E j \in 1..Len(rs) : rs[j].k = "val" /\ ~rs[j].has_numerator /\ rs[j].unit_plural # "") =>
-   Matches(PrintOut([j \in 1..Len(rs) |-> IF rs[j].k = "val" THEN [rs[j] EXCEPT !.has_numerator = TRUE] ELSE rs[j]], 1, exact), rs, <<>>, exact) # ""
-RejectsPluralOne == (\E j \in 1..Len(rs) : rs[j].k = "val" /\ IsOne(rs[j]) /\ rs[j].unit_plural # rs[j].unit_singular) =>
-   Matches(PrintOut([j \in 1..Len(rs) |-> IF rs[j].k = "val" THEN [rs[j] EXCEPT !.unit_singular = rs[j].unit_plural] ELSE rs[j]], 1, exact), rs, <<>>, exact) # ""
+\* a line with the blank always printed / the plural always used / a denominator pluralised is rejected
+Corrupt(r, how) == LET c == CompoundOfList(r.u) IN
+  CASE how = "blank" -> ValueText(r, exact) \o " " \o UnitText(c, ~IsOne(r), Names, Syms)
+    [] how = "plural" -> ValueText(r, exact) \o (IF HasNumerator(c) THEN " " ELSE "") \o UnitText(c, TRUE, Names, Syms)
+RECURSIVE PrintCorrupt(_, _, _)
+PrintCorrupt(results, j, how) == IF j > Len(results) THEN <<>>
+                                 ELSE (IF results[j].k = "val" THEN <<Corrupt(results[j], how)>> ELSE <<"error: " \o results[j].msg, "  | source", "">>)
+                                      \o PrintCorrupt(results, j + 1, how)
+RejectsAlwaysBlank == (\E j \in 1..Len(rs) : rs[j].k = "val" /\ rs[j].u # <<>> /\ ~HasNumerator(CompoundOfList(rs[j].u))) =>
+   Matches(PrintCorrupt(rs, 1, "blank"), rs, <<>>, exact) # ""
+RejectsPluralOne == (\E j \in 1..Len(rs) : rs[j].k = "val" /\ IsOne(rs[j]) /\ rs[j].u = <<<<"DECADE", 1, 0>>>>) =>
+   Matches(PrintCorrupt(rs, 1, "plural"), rs, <<>>, exact) # ""
+\* the composition itself on fixed examples
+Examples == /\ UnitText(CompoundOfList(<<<<"Meter", 12, 3>>, <<"DECADE", -1, 0>>>>), TRUE, Names, Syms) = "km^1^2/decade"
+            /\ UnitText(CompoundOfList(<<<<"DECADE", 1, 0>>>>), TRUE, Names, Syms) = "decades"
+            /\ UnitText(CompoundOfList(<<<<"DECADE", 1, 0>>, <<"Meter", 1, 0>>>>), TRUE, Names, Syms) = "decade*m"
+            /\ UnitText(CompoundOfList(<<<<"KiloGram", 1, -3>>>>), FALSE, Names, Syms) = "?"
+            /\ UnitText(CompoundOfList(<<<<"KiloGram", 2, 0>>>>), FALSE, Names, Syms) = "k?^2"
+            /\ UnitText(CompoundOfList(<<<<"Meter", 1, 4>>>>), FALSE, Names, Syms) = "e-1km"
 =============================================================================
